@@ -403,4 +403,146 @@ def reply : Val := .array [.simple [79, 75, 195, 169], .bulk [13, 10, 255, 0], .
 example : reply.wf codec1 = true ∧ reply.wf codec2 = true ∧ reply.depth ≤ env0.depth ∧ reply.arr ≤ maxNesting ∧
     reply.plain = false ∧ (Val.simple [255]).wf codec2 = false := by decide
 
+/-! ## 9. the decoders against an independent statement of the RESP grammar
+
+`firstCrlf bs` (Model/Resp.lean) is the index of the first adjacent pair (13, 10) of `bs`, defined
+through `List.zip` / `List.findIdx?`, independently of the decoders' search loops.  A RESP line is
+the bytes before the FIRST CR LF. -/
+
+theorem grammar_of (c : Codec) (h : c = codec1 ∨ c = codec2) : c.Grammar := by
+  cases h with
+  | inl h => subst h; rfl
+  | inr h => subst h; rfl
+
+/-- (a) a decoded simple string / error ends at the FIRST CR LF after the type byte: the consumed
+    count is that index + 3 (type byte, line, CR LF), the text is the decoder's string conversion
+    of exactly the bytes before it, and those bytes contain no CR LF -/
+theorem line_ends_at_first_crlf_string (c : Codec) (h : c = codec1 ∨ c = codec2) (env : Env) (hd : 1 ≤ env.depth)
+    (t : Nat) (ht : t = 43 ∨ t = 45) (rest : Bytes) (v : Val) (k : Nat)
+    (hok : (parseG c env (t :: rest)).out = .ok v k) :
+    ∃ p, firstCrlf rest = some p ∧ k = p + 3 ∧ firstCrlf (rest.take p) = none ∧
+      v = (if t = 43 then Val.simple else Val.error) (c.str (rest.take p)) := by
+  unfold parseG at hok
+  cases hdep : env.depth with
+  | zero => omega
+  | succ d =>
+    rw [hdep] at hok
+    unfold parseD at hok
+    rcases ht with ht | ht
+    · subst ht
+      simp only [if_true] at hok
+      rcases parseLine_grammar c (grammar_of c h) Val.simple 43 (by decide) rest with ⟨_, h2⟩ | ⟨p, h1, h2, h3⟩
+      · rw [h2] at hok; cases hok
+      · rw [h3] at hok
+        injection hok with hv hk
+        exact ⟨p, h1, hk.symm, h2, by simp [← hv]⟩
+    · subst ht
+      simp only [show ¬ (45 : Nat) = 43 by decide, if_false, if_true] at hok
+      rcases parseLine_grammar c (grammar_of c h) Val.error 45 (by decide) rest with ⟨_, h2⟩ | ⟨p, h1, h2, h3⟩
+      · rw [h2] at hok; cases hok
+      · rw [h3] at hok
+        injection hok with hv hk
+        exact ⟨p, h1, hk.symm, h2, by simp [← hv]⟩
+
+/-- (a) … and an integer frame likewise: the digits are exactly the bytes before the first CR LF -/
+theorem line_ends_at_first_crlf_int (c : Codec) (h : c = codec1 ∨ c = codec2) (env : Env) (hd : 1 ≤ env.depth)
+    (rest : Bytes) (v : Val) (k : Nat) (hok : (parseG c env (58 :: rest)).out = .ok v k) :
+    ∃ p n, firstCrlf rest = some p ∧ k = p + 3 ∧ firstCrlf (rest.take p) = none ∧
+      parseI64 (rest.take p) = some n ∧ v = .int n := by
+  unfold parseG at hok
+  cases hdep : env.depth with
+  | zero => omega
+  | succ d =>
+    rw [hdep] at hok
+    unfold parseD at hok
+    simp only [show ¬ (58 : Nat) = 43 by decide, show ¬ (58 : Nat) = 45 by decide, if_false, if_true] at hok
+    rcases parseInt_grammar c (grammar_of c h) rest with ⟨_, h2⟩ | ⟨p, h1, h2, h3⟩
+    · rw [h2] at hok; cases hok
+    · cases hn : parseI64 (rest.take p) with
+      | none => rw [hn] at h3; simp only at h3; rw [h3] at hok; cases hok
+      | some n =>
+        rw [hn] at h3
+        simp only at h3
+        rw [h3] at hok
+        injection hok with hv hk
+        exact ⟨p, n, h1, hk.symm, h2, hn, hv.symm⟩
+
+/-- (b) once a CR LF has arrived after the type byte, a `+` / `-` / `:` frame is never reported
+    incomplete: it is a value or a protocol error -/
+theorem complete_line_not_incomplete (c : Codec) (h : c = codec1 ∨ c = codec2) (env : Env) (hd : 1 ≤ env.depth)
+    (t : Nat) (ht : t = 43 ∨ t = 45 ∨ t = 58) (rest : Bytes) (p : Nat) (hp : firstCrlf rest = some p) :
+    (parseG c env (t :: rest)).out.isIncomplete = false := by
+  unfold parseG
+  cases hdep : env.depth with
+  | zero => omega
+  | succ d =>
+    unfold parseD
+    rcases ht with ht | ht | ht
+    · subst ht
+      simp only [if_true]
+      rcases parseLine_grammar c (grammar_of c h) Val.simple 43 (by decide) rest with ⟨h1, _⟩ | ⟨q, _, _, h3⟩
+      · rw [h1] at hp; cases hp
+      · rw [h3]; rfl
+    · subst ht
+      simp only [show ¬ (45 : Nat) = 43 by decide, if_false, if_true]
+      rcases parseLine_grammar c (grammar_of c h) Val.error 45 (by decide) rest with ⟨h1, _⟩ | ⟨q, _, _, h3⟩
+      · rw [h1] at hp; cases hp
+      · rw [h3]; rfl
+    · subst ht
+      simp only [show ¬ (58 : Nat) = 43 by decide, show ¬ (58 : Nat) = 45 by decide, if_false, if_true]
+      rcases parseInt_grammar c (grammar_of c h) rest with ⟨h1, _⟩ | ⟨q, _, _, h3⟩
+      · rw [h1] at hp; cases hp
+      · cases hn : parseI64 (rest.take q) with
+        | none => rw [hn] at h3; simp only at h3; rw [h3]; rfl
+        | some n => rw [hn] at h3; simp only at h3; rw [h3]; rfl
+
+/-- PINNED behaviour: the old `find_crlf` violated (b) -/
+theorem complete_line_pinned_counterexample :
+    firstCrlf [97, 13, 98, 13, 10] = some 3 ∧
+    (parseG codec1Pinned env0 (43 :: [97, 13, 98, 13, 10])).out.isIncomplete = true := by decide
+
+/-- (c) full statement: RespCodec and RespParser agree on every input — the same value (up to the
+    lossy UTF-8 conversion the simulation decoder applies to line texts) with the same consumed
+    count, both "more bytes needed", or the same protocol error -/
+def C15_decoders_agree : Prop :=
+  ∀ (env : Env) (bs : Bytes), maxNesting + 1 ≤ env.depth → Small bs →
+    (parse1 env bs).out.Agrees (parse2 env bs).out
+
+/-- (c) they genuinely differ in ONE place on the unchanged tree: `*-5\r\n` is "Invalid array
+    length" for RespCodec and the empty array for RespParser -/
+theorem decoders_agree_counterexample : ¬ C15_decoders_agree := by
+  intro h
+  have := h env0 arrayMinus5 (by decide) (by decide)
+  have h1 : (parse1 env0 arrayMinus5).out = .error .badLen := rfl
+  have h2 : (parse2 env0 arrayMinus5).out = .ok (.array []) 5 := rfl
+  rw [h1, h2] at this
+  exact this
+
+/-- (c) PARTIAL, and that is the only place: on every input the decoders agree, or RespCodec
+    reports "Invalid … length" (a negative array length somewhere in the frame) -/
+theorem decoders_agree_partial (env : Env) (bs : Bytes) (hd : maxNesting + 1 ≤ env.depth) (hs : Small bs) :
+    (parse1 env bs).out.Agrees (parse2 env bs).out ∨ (parse1 env bs).out = .error .badLen :=
+  parseD_agree env.mem env.depth 0 bs (Nat.zero_le _) (by omega) hs
+
+example : (parse1 env0 [43, 255, 13, 10]).out = .ok (.simple [255]) 4 ∧
+    (parse2 env0 [43, 255, 13, 10]).out = .ok (.simple [239, 191, 189]) 4 ∧
+    (Val.simple [255]).lossy = .simple [239, 191, 189] := ⟨rfl, rfl, rfl⟩
+
+/-- (d) frames do not overlap: decoding the concatenation of two complete frames yields the first
+    frame with exactly its own length, and what is left decodes to the second frame -/
+theorem frames_do_not_overlap (c : Codec) (h : c = codec1 ∨ c = codec2) (env : Env) (f1 f2 : Bytes)
+    (v1 v2 : Val) (hs : Small (f1 ++ f2))
+    (h1 : (parseG c env f1).out = .ok v1 f1.length) (h2 : (parseG c env f2).out = .ok v2 f2.length) :
+    (parseG c env (f1 ++ f2)).out = .ok v1 f1.length ∧
+    (parseG c env ((f1 ++ f2).drop f1.length)).out = .ok v2 f2.length := by
+  obtain ⟨hg, _, _, _⟩ := good_of c h
+  refine ⟨?_, by simpa using h2⟩
+  have := parseD_stable c hg env.mem env.depth 0 f1 f2 hs (by
+    unfold parseG at h1; unfold Decided; rw [h1]; rfl)
+  unfold parseG at h1 ⊢
+  rw [this, h1]
+
+example : (parse1 env0 ([43, 97, 13, 13, 10] ++ [58, 49, 13, 10])).out = .ok (.simple [97, 13]) 5 ∧
+    (parse1 env0 [58, 55, 13, 13, 10]).out = .error .badInt := ⟨rfl, rfl⟩
+
 end RedisVerif.C15
